@@ -2,15 +2,5 @@
 (* TLC-only definitions for the exhaustive configurations of ThreadPool. *)
 EXTENDS ThreadPool
 
-\* Reachability witnesses: each must be VIOLATED; the counterexample is a schedule that the
-\* harness forces through the real pool (binding D).
-\*   a respawned worker runs a task / panics a second time
-NeverRespawnedRuns  == \A w \in Workers : ~(inc[w] >= 1 /\ wpc[w] = "run")
-NeverSecondRespawn  == \A w \in Workers : inc[w] < 2
-\*   drop is entered without stop while a task runs and another is still queued
-NeverDropBusyNoStop == ~(cpc = "dropping" /\ recAttached /\ Running # {} /\ q # <<>>)
-\*   stop: one worker has consumed the Shutdown while another still runs a task and a third sits in recv
-NeverStopBusy       == ~(cpc = "stopped" /\ Gone # {} /\ Running # {} /\ rxLock # NOBODY)
-\*   the recovery thread finds the handle already taken by Drop
-NeverRespawnAfterDrop == ~(rpc = "respawn" /\ cpc = "done" /\ ~handles[rw])
+\* (the reachability witnesses used for the gated replay are defined in Gen_ThreadPool)
 =============================================================================
